@@ -41,6 +41,7 @@ func init() {
 			ruleDecoderBounds(c, r, "")
 			ruleReaderFrom(c, r, "")
 			ruleWriter2Split(c, r, "")
+			ruleDefaultChunkType(c, r, t, "")
 			ruleReader2ChunkEOF(c, r, "")
 			ruleReadInvokes(c, r, "")
 			r.Floor("SEQ-STARTCHUNK", 7)
